@@ -247,3 +247,7 @@ async fn perform_shutdown(mut background_tasks: BackgroundTasks) {
 
     info!("reached shutdown target");
 }
+
+#[cfg(all(test, feature = "verif"))]
+#[path = "/verif/harness/sequencer/grpc_mc.rs"]
+mod verif_grpc;
